@@ -200,3 +200,13 @@ reg("C32", "tsx", "Complete reachability analysis of FIFOLatencyMeasurer, WideFI
     "explicit-state BFS of the real elaborated circuit against an event-age reference model",
     note=E1_NOTE + " The histogram's accumulator registers are excluded from the state key after a structural check that nothing but "
     "their own update reads them; inputs respect the documented usage (stop only events in flight, unique slot tags).")
+
+ENGINES.append({"name": "seq", "path": "/verif/vlib/seq.py",
+                "kind_free_text": "operation-sequence explorer for plain Python objects: BFS over all operation histories up to a depth "
+                "on a fresh real object (every history replayed from scratch), canonical-state de-duplication, reference model in "
+                "lock-step", "serves_properties": []})
+reg("C42", "seq", "All add/get/get_optional histories on a real DependencyManager for ten keys (simple, default, non-locking, list, "
+    "custom combining cached/uncached, UnifierKey, parametrised key instances), alone to depth 6 (8 thorough) and in pairs to depth 4 "
+    "(5), against a dict-of-lists + lock-set model; de-duplication on the manager's full contents.",
+    "explicit-state BFS over operation histories of the real object against a reference model",
+    note="Bounded depth and two dependency values; histories are replayed on fresh objects; exception types are not compared.")
